@@ -144,7 +144,8 @@ def run(ctx):
                     continue
                 n_sites += 1
                 l = mir.op_local(t["args"][1])
-                from_template = l in tloc
+                # any flow (also through Option::or / unwrap_or / a helper) from the template's own location
+                from_template = l in tloc or (l is not None and bool(pf.taint_reach(l) & tloc))
                 ar = pf.arg_roots(t["args"][1])
                 ctx.inst("C15-single-origin", "%s/locate" % name.rsplit("::", 1)[-1], {"from_template_location": from_template, "params": sorted(ar)})
                 if from_template:
@@ -154,7 +155,8 @@ def run(ctx):
             # recursive calls must pass the location parameter on, not the template's
             if callee(t) in SUBS:
                 for k, a in enumerate(t["args"]):
-                    if "Option<[u32; 2]>" in (t.get("argtys") or [""] * 9)[k] and mir.op_local(a) in tloc:
+                    la = mir.op_local(a)
+                    if "Option<[u32; 2]>" in (t.get("argtys") or [""] * 9)[k] and la is not None and (la in tloc or pf.taint_reach(la) & tloc):
                         ctx.report("C15-single-origin", "template-location-passed/" + name.rsplit("::", 1)[-1],
                                    "a sub-template is expanded with the template's own location", where_of(f, t))
     if n_sites < 6:
